@@ -17,6 +17,7 @@ package validation
 import (
 	"crypto/tls"
 	"fmt"
+	"net/url"
 	"strings"
 
 	apimachineryvalidation "k8s.io/apimachinery/pkg/api/validation"
@@ -70,6 +71,8 @@ func ValidateServers(servers []proxyv1alpha1.UpstreamClusterServer, fldPath *fie
 		scheme := getURLScheme(servers[i].Endpoint)
 		if len(scheme) == 0 {
 			allErrs = append(allErrs, field.Invalid(fldPath.Child("servers").Index(i), s, "endpoint must supply http(s) schema"))
+		} else if u, err := url.Parse(servers[i].Endpoint); err != nil || len(u.Host) == 0 {
+			allErrs = append(allErrs, field.Invalid(fldPath.Child("servers").Index(i), s, "endpoint must be a valid URL with a host"))
 		} else {
 			schemes.Insert(scheme)
 		}
@@ -104,6 +107,9 @@ func ValidateClientConfig(scheme string, clientconfig *proxyv1alpha1.ClientConfi
 		if !clientconfig.Insecure && len(clientconfig.CAData) == 0 {
 			allErrs = append(allErrs, field.Required(fldPath.Child("caData"), "clientConfig must supply caData when using secure mode"))
 		}
+		if clientconfig.Insecure && len(clientconfig.CAData) > 0 {
+			allErrs = append(allErrs, field.Invalid(fldPath.Child("caData"), "", "caData must not be set together with insecure"))
+		}
 
 		var hasToken, hasKey, hasCert bool
 		if len(clientconfig.BearerToken) > 0 {
@@ -134,6 +140,9 @@ func ValidateClientConfig(scheme string, clientconfig *proxyv1alpha1.ClientConfi
 		}
 	}
 
+	if (len(clientconfig.KeyData) > 0) != (len(clientconfig.CertData) > 0) {
+		allErrs = append(allErrs, field.Invalid(fldPath.Child("certData"), "", "certData and keyData must be set together"))
+	}
 	if len(clientconfig.KeyData) > 0 && len(clientconfig.CertData) > 0 {
 		_, err := tls.X509KeyPair(clientconfig.CertData, clientconfig.KeyData)
 		if err != nil {
@@ -156,6 +165,9 @@ func ValidateClientConfig(scheme string, clientconfig *proxyv1alpha1.ClientConfi
 func ValidateSecureServing(serving *proxyv1alpha1.SecureServing, fldPath *field.Path) field.ErrorList {
 	allErrs := field.ErrorList{}
 
+	if (len(serving.CertData) > 0) != (len(serving.KeyData) > 0) {
+		allErrs = append(allErrs, field.Invalid(fldPath.Child("certData"), "", "certData and keyData must be set together"))
+	}
 	if len(serving.CertData) > 0 && len(serving.KeyData) > 0 {
 		_, err := tls.X509KeyPair(serving.CertData, serving.KeyData)
 		if err != nil {
@@ -197,6 +209,15 @@ func ValidateFlowControl(flowcontrol *proxyv1alpha1.FlowControl, fldPath *field.
 		}
 
 		allErrs = append(allErrs, ValidateFlowControlConfiguration(&fs.FlowControlSchemaConfiguration, flowControlFieldPath.Index(i))...)
+
+		if fs.Strategy == proxyv1alpha1.GlobalAllocateLimit || fs.Strategy == proxyv1alpha1.GlobalCountLimit {
+			if fs.MaxRequestsInflight != nil && fs.GlobalMaxRequestsInflight == nil {
+				allErrs = append(allErrs, field.Required(flowControlFieldPath.Index(i).Child("globalMaxRequestsInflight"), fmt.Sprintf("required by strategy %v", fs.Strategy)))
+			}
+			if fs.TokenBucket != nil && fs.GlobalTokenBucket == nil {
+				allErrs = append(allErrs, field.Required(flowControlFieldPath.Index(i).Child("globalTokenBucket"), fmt.Sprintf("required by strategy %v", fs.Strategy)))
+			}
+		}
 	}
 
 	return flowControlSchemaNames, allErrs
@@ -296,7 +317,7 @@ func ValidateFlowControlConfiguration(schema *proxyv1alpha1.FlowControlSchemaCon
 	}
 	if schema.GlobalMaxRequestsInflight != nil {
 		if schema.GlobalMaxRequestsInflight.Max < 0 {
-			allErrs = append(allErrs, field.Invalid(fldPath.Child("globalMaxRequestsInflight").Child("max"), schema.MaxRequestsInflight.Max, "must be bigger than or equal to 0"))
+			allErrs = append(allErrs, field.Invalid(fldPath.Child("globalMaxRequestsInflight").Child("max"), schema.GlobalMaxRequestsInflight.Max, "must be bigger than or equal to 0"))
 		}
 		if schema.MaxRequestsInflight == nil {
 			allErrs = append(allErrs, field.Required(fldPath.Child("maxRequestsInflight"), "required if globalMaxRequestsInflight is specified"))
@@ -314,7 +335,7 @@ func ValidateFlowControlConfiguration(schema *proxyv1alpha1.FlowControlSchemaCon
 		}
 	}
 	if schema.GlobalTokenBucket != nil {
-		if schema.GlobalTokenBucket.QPS == 0 {
+		if schema.GlobalTokenBucket.QPS <= 0 {
 			allErrs = append(allErrs, field.Invalid(fldPath.Child("globalTokenBucket").Child("qps"), schema.GlobalTokenBucket.QPS, "must bigger than 0"))
 		}
 		if schema.TokenBucket == nil {
@@ -334,7 +355,7 @@ func ValidateFlowControlConfiguration(schema *proxyv1alpha1.FlowControlSchemaCon
 
 func validateTokenBucketFlowControlSchema(tokenBucket *proxyv1alpha1.TokenBucketFlowControlSchema, fldPath *field.Path) field.ErrorList {
 	allErrs := field.ErrorList{}
-	if tokenBucket.QPS == 0 {
+	if tokenBucket.QPS <= 0 {
 		allErrs = append(allErrs, field.Invalid(fldPath.Child("qps"), tokenBucket.QPS, "must bigger than 0"))
 	}
 
